@@ -13,7 +13,11 @@
 (*                                                                         *)
 (* Events  [ev |-> "create"]  [ev |-> "write", c |-> length class now]     *)
 (*         [ev |-> "rename"]  [ev |-> "rename-failed"]  [ev |-> "remove"]  *)
-(*         [ev |-> "killed"]  [ev |-> "clear"]                             *)
+(*         [ev |-> "killed"]  [ev |-> "clear"] (possibly by another cache     *)
+(*         object in the middle of the write)  [ev |-> "fault"] (the driver *)
+(*         made the next operation fail)  [ev |-> "loaded"] / "raised"      *)
+(*         (how the load that did the write ended: it may only raise after  *)
+(*         an injected fault)                                               *)
 (*         [ev |-> "final", c |-> length class of the final entry or -1,   *)
 (*          junk |-> number of left-over temp files]                       *)
 (* Many traces per TLC run: `tid` picks the trace, `i` walks it.           *)
@@ -22,20 +26,20 @@ EXTENDS BCCacheWrite, Integers, Sequences, Json, IOUtils
 
 Traces == JsonDeserialize(IOEnv.TRACE_FILE)
 
-VARIABLES tid, i
+VARIABLES tid, i, faulted
 
-tvars == <<final, temp, pc, junk, seen, tid, i>>
+tvars == <<final, temp, pc, junk, seen, tid, i, faulted>>
 
 P == CHOOSE p \in Procs : TRUE
 T == CHOOSE t \in Tags : TRUE
 
 HasEv == i <= Len(Traces[tid])
 Ev == Traces[tid][i]
-Consume == i' = i + 1 /\ UNCHANGED tid
-Internal == UNCHANGED <<tid, i>>
+Consume == i' = i + 1 /\ UNCHANGED <<tid, faulted>>
+Internal == UNCHANGED <<tid, i, faulted>>
 Same == UNCHANGED vars
 
-TInit == Init /\ tid \in 1..Len(Traces) /\ i = 1
+TInit == Init /\ tid \in 1..Len(Traces) /\ i = 1 /\ faulted = FALSE
 
 TNext ==
     /\ HasEv
@@ -48,6 +52,9 @@ TNext ==
        \/ Ev.ev = "remove" /\ (WriteFails(P) \/ ReplaceFails(P)) /\ Consume
        \/ Ev.ev = "killed" /\ (Crash(P) \/ (pc[P] = "idle" /\ Same)) /\ Consume
        \/ Ev.ev = "clear" /\ (ClearAll \/ (final = None /\ Same)) /\ Consume
+       \/ Ev.ev = "fault" /\ Same /\ i' = i + 1 /\ faulted' = TRUE /\ UNCHANGED tid
+       \/ Ev.ev = "loaded" /\ pc[P] = "idle" /\ Same /\ i' = i + 1 /\ faulted' = FALSE /\ UNCHANGED tid
+       \/ Ev.ev = "raised" /\ faulted /\ pc[P] = "idle" /\ Same /\ i' = i + 1 /\ faulted' = FALSE /\ UNCHANGED tid
        \/ /\ Ev.ev = "final"
           /\ pc[P] = "idle"
           /\ IF Ev.c < 0 THEN final = None ELSE final # None /\ final.len = Ev.c
